@@ -19,11 +19,15 @@ for n in names:
     if r.returncode != 0:
         rows.append((n, prop, "PATCH-DOES-NOT-APPLY", "")); continue
     t0 = time.time()
+    evp = os.path.join(V, "evidence", prop + ".json")
+    saved = open(evp).read() if os.path.exists(evp) else None   # evidence files must come from clean-tree runs only
     try:
         c = sh("cd %s && timeout 1500 ./check %s quick" % (V, prop))
         out, rc = c.stdout, c.returncode
     finally:
         sh("git -C /repo checkout -- . && git -C /repo clean -fdq -- pkg protocols internal")
+        if saved is not None:
+            open(evp, "w").write(saved)
     viol = [l for l in out.splitlines() if l.startswith("VIOLATION")]
     kind = "MISSED"
     if viol:
